@@ -383,6 +383,9 @@ func (p *program) parseArgs(args []string) error {
 	if err := p.flagSet.Parse(args); err != nil {
 		return err
 	}
+	if p.concurrency < 1 {
+		return fmt.Errorf("-concurrency must be a positive number, got %d", p.concurrency)
+	}
 
 	p.packages = p.flagSet.Args()
 	p.filters.enable = strings.Split(*enable, ",")
